@@ -15,8 +15,23 @@
         Duration::new(s, n)
     }
 
-    fn ns(d: Duration) -> u128 {
-        ((d.as_secs() as u128) * 1_000_000_000u128 + (d.subsec_nanos() as u128)) as u128
+    /// a whole-millisecond Duration given as (seconds, milliseconds < 1000): identical to `Duration::from_millis(s*1000+r)`
+    /// but without a 64-bit division in the harness; returns the Duration and its millisecond count
+    fn ms_duration(s: u64, r: u32) -> (Duration, u64) {
+        (Duration::new(s, r * 1_000_000), s * 1000 + (r as u64))
+    }
+
+    fn any_ms_duration() -> (Duration, u64) {
+        let s: u64 = kani::any();
+        let r: u32 = kani::any();
+        kani::assume(r < 1000 && (s < u64::MAX / 1000 || (s == u64::MAX / 1000 && r <= (u64::MAX % 1000) as u32))); // @assume: harness domain = every Duration::from_millis(x), x: u64, split as x = 1000*s + r
+        ms_duration(s, r)
+    }
+
+    /// millisecond count of a Duration that must be a whole number of milliseconds
+    fn exact_ms(d: Duration) -> u128 {
+        assert!(d.subsec_nanos() % 1_000_000 == 0);
+        (d.as_secs() as u128) * 1000u128 + ((d.subsec_nanos() / 1_000_000) as u128)
     }
 
     /// type invariant of a live back-off object under the property's precondition min <= max:
@@ -26,21 +41,21 @@
             && match b.last { None => true, Some(l) => b.strategy.min_delay <= l && l <= b.strategy.max_delay }
     }
 
-    // @harness ids=C17,C01 tier=quick kind=proof units=app::retry::ExponentialBackOff::on_failure,app::retry::ExponentialBackOff::on_success,app::retry::ExponentialBackOff::new timeout=300 note="millisecond configurations, any state within the invariant (precondition min<=max): next delay = spec backoff_next (min first, then min(2*last,max)), stored as the new last, min<=delay<=max, configuration unchanged; new/on_success give the no-failure state"
+    // @harness ids=C17,C01 tier=quick kind=proof units=app::retry::ExponentialBackOff::on_failure,app::retry::ExponentialBackOff::on_success,app::retry::ExponentialBackOff::new timeout=600 note="every whole-millisecond configuration (all u64 ms) with min<=max, any state within the invariant: next delay = spec backoff_next in ms (min first, then min(2*last,max)), stored as the new last, min<=delay<=max, configuration unchanged; new/on_success give the no-failure state and the sequence restarts at min"
     #[kani::proof]
     fn vk_c17_backoff_ms() {
-        let (min, max, last): (u64, u64, u64) = (kani::any(), kani::any(), kani::any());
+        let (dmin, min) = any_ms_duration();
+        let (dmax, max) = any_ms_duration();
+        let (dlast, last) = any_ms_duration();
         let has_last: bool = kani::any();
         kani::assume(min <= max); // @assume: property precondition min <= max (RetryStrategy::new does not enforce it: observation)
-        kani::assume(!has_last || (min <= last && last <= max)); // @assume: invariant established by new/on_failure (proved below)
-        let dmin = Duration::from_millis(min);
-        let dmax = Duration::from_millis(max);
-        let mut b = if has_last { mk_backoff(dmin, dmax, Some(Duration::from_millis(last))) } else { ExponentialBackOff::new(RetryStrategy::new(dmin, dmax)) };
+        kani::assume(!has_last || (min <= last && last <= max)); // @assume: invariant established by new/on_failure (proved here and in vk_c17_backoff_full_domain)
+        let mut b = if has_last { mk_backoff(dmin, dmax, Some(dlast)) } else { ExponentialBackOff::new(RetryStrategy::new(dmin, dmax)) };
         assert!(backoff_inv(&b));
         if !has_last { assert!(b.last.is_none()); }
         let d = b.on_failure();
         let want = spec::backoff_next(min, max, has_last, last);
-        assert!(d == Duration::from_millis(want));
+        assert!(exact_ms(d) == (want as u128));
         assert!(b.last == Some(d));
         assert!(dmin <= d && d <= dmax);
         assert!(b.strategy.min_delay == dmin && b.strategy.max_delay == dmax);
@@ -55,7 +70,7 @@
         assert!(b.on_failure() == dmin);
     }
 
-    // @harness ids=C17,C01 tier=quick kind=proof units=app::retry::ExponentialBackOff::on_failure timeout=300 note="every representable Duration configuration with min<=max and any state within the invariant, at nanosecond resolution: delay = min first, then min(2*last,max) in unbounded arithmetic (doubling beyond the Duration range yields max), min<=delay<=max, invariant preserved, no panic"
+    // @harness ids=C17,C01 tier=quick kind=proof units=app::retry::ExponentialBackOff::on_failure timeout=600 note="every representable Duration configuration with min<=max and any state within the invariant, at full (seconds,nanoseconds) resolution: delay = min first, then min(2*last,max) in unbounded arithmetic (doubling beyond the Duration range yields max), min<=delay<=max, invariant preserved, no panic"
     #[kani::proof]
     fn vk_c17_backoff_full_domain() {
         let dmin = any_duration();
@@ -66,35 +81,36 @@
         kani::assume(!has_last || (dmin <= dlast && dlast <= dmax)); // @assume: invariant (proved preserved here, established by new)
         let mut b = mk_backoff(dmin, dmax, if has_last { Some(dlast) } else { None });
         let d = b.on_failure();
-        let want = spec::backoff_next_ns(ns(dmin), ns(dmax), has_last, ns(dlast));
-        assert!(ns(d) == want);
+        let (ws, wn) = spec::backoff_next_sn(dmin.as_secs(), dmin.subsec_nanos(), dmax.as_secs(), dmax.subsec_nanos(), has_last, dlast.as_secs(), dlast.subsec_nanos());
+        assert!(d.as_secs() == ws && d.subsec_nanos() == wn);
         assert!(b.last == Some(d));
         assert!(dmin <= d && d <= dmax);
         assert!(b.strategy.min_delay == dmin && b.strategy.max_delay == dmax);
         assert!(backoff_inv(&b));
         kani::cover!(!has_last);
         kani::cover!(has_last && d == dmax && dlast < dmax);
-        kani::cover!(has_last && d < dmax);
+        kani::cover!(has_last && d < dmax && dlast.subsec_nanos() > 500_000_000);
         kani::cover!(has_last && dlast.as_secs() > u64::MAX / 2); // doubling overflows the Duration range
     }
 
-    // @harness ids=C17 tier=quick kind=bounded bound="first 4 consecutive failures" units=app::retry::ExponentialBackOff::on_failure,app::retry::ExponentialBackOff::on_success timeout=300 note="from a fresh object the k-th consecutive failure (k=1..4) is delayed min(min*2^(k-1),max) ms; a success in between restarts the sequence at min"
+    // @harness ids=C17 tier=quick kind=bounded bound="first 4 consecutive failures" units=app::retry::ExponentialBackOff::on_failure,app::retry::ExponentialBackOff::on_success timeout=600 note="from a fresh object the k-th consecutive failure (k=1..4) is delayed min(min*2^(k-1),max) ms; a success in between restarts the sequence at min"
     #[kani::proof]
     fn vk_c17_backoff_sequence() {
-        let (min, max): (u64, u64) = (kani::any(), kani::any());
+        let (dmin, min) = any_ms_duration();
+        let (dmax, max) = any_ms_duration();
         kani::assume(min <= max); // @assume: property precondition min <= max
-        let mut b = ExponentialBackOff::new(RetryStrategy::new(Duration::from_millis(min), Duration::from_millis(max)));
+        let mut b = ExponentialBackOff::new(RetryStrategy::new(dmin, dmax));
         let d1 = b.on_failure();
         let d2 = b.on_failure();
         let d3 = b.on_failure();
         let d4 = b.on_failure();
-        assert!(d1 == Duration::from_millis(spec::backoff_kth(min, max, 1)));
-        assert!(d2 == Duration::from_millis(spec::backoff_kth(min, max, 2)));
-        assert!(d3 == Duration::from_millis(spec::backoff_kth(min, max, 3)));
-        assert!(d4 == Duration::from_millis(spec::backoff_kth(min, max, 4)));
-        assert!(d1 <= d2 && d2 <= d3 && d3 <= d4 && d4 <= Duration::from_millis(max));
+        assert!(exact_ms(d1) == (spec::backoff_kth(min, max, 1) as u128));
+        assert!(exact_ms(d2) == (spec::backoff_kth(min, max, 2) as u128));
+        assert!(exact_ms(d3) == (spec::backoff_kth(min, max, 3) as u128));
+        assert!(exact_ms(d4) == (spec::backoff_kth(min, max, 4) as u128));
+        assert!(d1 <= d2 && d2 <= d3 && d3 <= d4 && d4 <= dmax);
         b.on_success();
         assert!(b.on_failure() == d1);
-        kani::cover!(d4 == Duration::from_millis(max) && d3 < d4);
-        kani::cover!(d4 < Duration::from_millis(max) && d1 > Duration::from_millis(0));
+        kani::cover!(d4 == dmax && d3 < d4);
+        kani::cover!(d4 < dmax && min > 0);
     }
